@@ -360,7 +360,8 @@ def _flat(x):
 
 
 INL = ["a", "*e*", "**s**", "`c`", "[l](http://u)", "![i](v)", "<b>", "<http://x>", "\\\n", "\n", "[*n*](w \"t\")", "**[k](z)**", "![*x* `y`](v \"t\")",
-       "&amp;", "\\*", "[](http://e)", "****", "$m$", "~~s *e*~~", "*a **b** c*", "`` ` ``", "[a `c` **b**](<u v>)", "\"q\" -- ..."]
+       "&amp;", "\\*", "[](http://e)", "****", "$m$", "~~s *e*~~", "*a **b** c*", "`` ` ``", "[a `c` **b**](<u v>)", "\"q\" -- ...",
+       "![see [the *manual*](http://u) here](i.png)", "![~~s~~ **b** <i>h</i> &amp;](v)", "[![in](v) link](http://w)"]
 INL_CTX = {
     "para": lambda s: s + "\n",
     "head": lambda s: "## " + s.replace("\\\n", " ").replace("\n", " ") + "\n",
